@@ -210,8 +210,13 @@ const (
 	stComments                // comment lines, blank lines, spaces instead of tabs
 	stBrowsePath              // browse scope given by `path` inside the browse block
 	stShuffle                 // the directives of the block in another order (directives of the same kind keep theirs)
+	stBlockForm               // directives with a one-line and a block form are written as blocks (c03: basicauth)
 	stAll         = 1<<iota - 1
 )
+
+const stBits = 12
+
+var stNames = []string{"root-slash", "root-detour", "root-quoted", "root-last", "addr-lines", "host-upper", "index-lines", "root-decoy", "comments", "browse-path", "shuffle", "block-form"}
 
 // fsBlockSpec is one server block: what it means and (style) how it is written.
 type fsBlockSpec struct {
